@@ -67,6 +67,13 @@ TARGETS = [
     ('cardutil/iso8583.py', '_field_to_iso8583', {}, 'bytes',
      {'params': [('bit_config', 'cfg'), ('field_value', 'sb'), ('encoding', 'codec')],
       'extern': {'_pytype_to_string': ([('field_data', 'sb'), ('bit_config', 'cfg')], 'sb', True)}}),
+    # the FRAMING of one element on decode: the statements of _iso8583_to_field up to `field_processor = ...` (declared
+    # length, refusals, the slice) returning the element's bytes and the message increment; the codec's decoder is a
+    # parameter
+    ('cardutil/iso8583.py', '_iso8583_to_field', {}, ('tuple', 'bytes', 'int'),
+     {'fragment': ('until', 'field_processor', '(field_data, field_length + length_size)'),
+      'params': [('bit_config', 'cfg'), ('message_data', 'bytes'), ('encoding', 'decoder')],
+      'lean_name': '_iso8583_to_field_frame'}),
     # BitArray with its default big-endian order (`self.endian` is read from the class attribute; both call sites use it)
     ('cardutil/BitArray.py', 'BitArray.tolist', {}, ('list', 'bool'), {'readonly': True}),
     ('cardutil/BitArray.py', 'BitArray.fromlist', {'bytelist': ('list', 'bool')}, None),
@@ -115,6 +122,8 @@ def lean_type(t):
         return 'Rt.SB'
     if t == 'codec':
         return '(Text → Outcome Bytes)'
+    if t == 'decoder':
+        return '(Bytes → Outcome Text)'
     if isinstance(t, tuple) and t[0] == 'list':
         return f'(List {lean_type(t[1])})'
     if isinstance(t, tuple) and t[0] == 'tuple':
@@ -175,6 +184,8 @@ class Translator:
         if not self.monadic:
             raise NeedMonad()
         v = self.tmp()
+        if getattr(self, 'catching', None):
+            code = f'(Rt.catchData [{", ".join("." + k for k in self.catching)}] {code})'
         self.pending.append((v, code))
         return v, typ
 
@@ -474,6 +485,12 @@ class Translator:
                 and isinstance(node.args[0], ast.Name) and env.get(node.args[0].id, (None, None))[1] == 'codec':
             c, t = self.expr(f.value, env)
             return self.hoist(f'({env[node.args[0].id][0]} {self.coerce(c, t, "str")})', 'bytes')
+        if isinstance(f, ast.Attribute) and f.attr == 'decode' and len(node.args) == 1 and not node.keywords \
+                and isinstance(node.args[0], ast.Name) and env.get(node.args[0].id, (None, None))[1] == 'decoder':
+            c, t = self.expr(f.value, env)
+            if t not in ('bytes', 'asciibytes'):
+                raise Untranslatable('decode of a non-bytes value')
+            return self.hoist(f'({env[node.args[0].id][0]} {c})', 'str')
         if isinstance(f, ast.Name) and f.id in getattr(self, 'extern', {}):
             ptypes, rtype, partial = self.extern[f.id]
             if len(node.args) != len(ptypes) or node.keywords:
@@ -905,6 +922,36 @@ class Translator:
                 env2[name] = (name, t)
                 return f'let {name} : {lean_type(t)} := {c};\n  ' + self.stmts(rest, env2, ret, loop)
             return self.wrap(go)
+        if isinstance(s, ast.Try):
+            # try: <name> = <expr>  except (E, ...) as ex: raise <library data error>(...)
+            CATCH = {'ValueError': 'valueError', 'UnicodeDecodeError': 'unicodeError', 'UnicodeError': 'unicodeError',
+                     'error': 'structError', 'InvalidOperation': 'decimalError'}
+            if s.orelse or s.finalbody or len(s.handlers) != 1 or len(s.body) != 1 \
+                    or not (isinstance(s.body[0], ast.Assign) and len(s.body[0].targets) == 1
+                            and isinstance(s.body[0].targets[0], ast.Name)):
+                raise Untranslatable('try statement of an unsupported shape')
+            h = s.handlers[0]
+            types = h.type.elts if isinstance(h.type, ast.Tuple) else [h.type]
+            names = [t.id if isinstance(t, ast.Name) else t.attr if isinstance(t, ast.Attribute) else None for t in types]
+            if any(n not in CATCH for n in names):
+                raise Untranslatable(f'except clause for {names}')
+            hb = h.body
+            if not (len(hb) == 1 and isinstance(hb[0], ast.Raise) and isinstance(hb[0].exc, ast.Call)
+                    and isinstance(hb[0].exc.func, ast.Name)
+                    and hb[0].exc.func.id in ('Iso8583DataError', 'MciIpmDataError', 'CardutilError')):
+                raise Untranslatable('except body that is not a raise of the library error')
+            name = s.body[0].targets[0].id
+
+            def go():
+                self.catching = [CATCH[n] for n in names]
+                try:
+                    c, t = self.expr(s.body[0].value, env)
+                finally:
+                    self.catching = None
+                env2 = dict(env)
+                env2[name] = (name, t)
+                return f'let {name} : {lean_type(t)} := {c};\n  ' + self.stmts(rest, env2, ret, loop)
+            return self.wrap(go)
         if isinstance(s, ast.Return):
             if loop:
                 raise Untranslatable('return inside a loop')
@@ -1093,7 +1140,7 @@ def fragment_of(body, spec):
         raise Untranslatable(f'no assignment to {spec[1]} to cut the fragment at')
     if spec[0] == 'from':
         return body[idx[0]:]
-    return body[:idx[0]] + [ast.Return(value=ast.Name(id=spec[2], ctx=ast.Load()))]
+    return body[:idx[0]] + [ast.Return(value=ast.parse(spec[2], mode='eval').body)]
 
 
 def translate_function(mod_ast, fdef, ptypes, ret, known, cls=None, opts=None):
